@@ -350,7 +350,7 @@ func runCheck(o *checkOpts) int {
 	tainted := map[string]string{}
 	for _, ob := range allObls {
 		switch ob.Class {
-		case "invariant-init", "invariant-pres", "requires", "frame", "typeinv":
+		case "invariant-init", "invariant-pres", "requires":
 			okStatus := "unsat"
 			if ob.Status != okStatus {
 				if kf := known.match(o.prop, ob.Name); kf != nil && kf.Status == "open" {
@@ -365,7 +365,7 @@ func runCheck(o *checkOpts) int {
 	for _, ob := range allObls {
 		if why, bad := tainted[ob.Func]; bad && !ob.Cover && ob.Status == "unsat" {
 			switch ob.Class {
-			case "invariant-init", "invariant-pres", "requires", "frame", "typeinv":
+			case "invariant-init", "invariant-pres", "requires":
 			default:
 				ob.Status = "unsupported"
 				ob.Output = "discharged only under an assumption that is itself not established: " + why
